@@ -298,3 +298,125 @@ func TemplateHistory(r *rand.Rand, sig canon.Signal, ti int) *History {
 	}
 	return h
 }
+
+// RampHistory builds a cardinality ramp: nb batches of n items whose dictionary-encoded
+// columns (names, attribute keys/values, bodies, ids, units) carry fresh values (low reuse:
+// every value unique) or values drawn from a slowly growing pool (high reuse).
+func RampHistory(r *rand.Rand, sig canon.Signal, nb, n int, highReuse bool) *History {
+	h := &History{Script: fmt.Sprintf("ramp(reuse=%v)", highReuse)}
+	ctr := 0
+	val := func() int {
+		if highReuse {
+			// pool grows by ~n/8 per batch, each value reused ~8 times
+			if r.IntN(8) == 0 {
+				ctr++
+			}
+			if ctr == 0 {
+				return 0
+			}
+			return ctr - r.IntN(min(ctr, 40))
+		}
+		ctr++
+		return ctr
+	}
+	for k := 0; k < nb; k++ {
+		switch sig {
+		case canon.Traces:
+			td := ptrace.NewTraces()
+			rs := td.ResourceSpans().AppendEmpty()
+			rs.Resource().Attributes().PutStr("host", fmt.Sprintf("h%d", k%3))
+			ss := rs.ScopeSpans().AppendEmpty()
+			ss.Scope().SetName("lib")
+			for i := 0; i < n; i++ {
+				v := val()
+				s := ss.Spans().AppendEmpty()
+				s.SetName(fmt.Sprintf("name-%d", v))
+				s.SetTraceID(pcommon.TraceID{byte(v), byte(v >> 8), byte(v >> 16), 1})
+				s.SetSpanID(pcommon.SpanID{byte(v), byte(v >> 8), byte(v >> 16), 2})
+				s.SetStartTimestamp(pcommon.Timestamp(1_700_000_000_000_000_000 + uint64(v)*1000))
+				s.SetEndTimestamp(pcommon.Timestamp(1_700_000_000_000_000_000 + uint64(v)*1000 + uint64(v%7)))
+				s.TraceState().FromRaw(fmt.Sprintf("ts=%d", v))
+				s.Attributes().PutStr(fmt.Sprintf("k%d", v%300), fmt.Sprintf("v%d", v))
+				s.Attributes().PutInt("n", int64(v))
+				s.Attributes().PutEmptyBytes("b").FromRaw([]byte(fmt.Sprintf("b%d", v)))
+				if i%3 == 0 {
+					ev := s.Events().AppendEmpty()
+					ev.SetName(fmt.Sprintf("ev-%d", v))
+					ev.Attributes().PutStr("e", fmt.Sprintf("ev%d", v))
+					l := s.Links().AppendEmpty()
+					l.SetTraceID(pcommon.TraceID{byte(v), byte(v >> 8), 7})
+					l.SetSpanID(pcommon.SpanID{byte(v), byte(v >> 8), 8})
+					l.Attributes().PutInt("l", int64(v))
+				}
+				s.Status().SetMessage(fmt.Sprintf("msg-%d", v))
+			}
+			h.Batches = append(h.Batches, TB(td))
+		case canon.Logs:
+			ld := plog.NewLogs()
+			rl := ld.ResourceLogs().AppendEmpty()
+			rl.Resource().Attributes().PutStr("host", fmt.Sprintf("h%d", k%3))
+			sl := rl.ScopeLogs().AppendEmpty()
+			sl.Scope().SetName("lib")
+			for i := 0; i < n; i++ {
+				v := val()
+				l := sl.LogRecords().AppendEmpty()
+				switch i % 4 {
+				case 0:
+					l.Body().SetStr(fmt.Sprintf("free text body %d", v))
+				case 1:
+					l.Body().SetInt(int64(v))
+				case 2:
+					l.Body().SetEmptyBytes().FromRaw([]byte(fmt.Sprintf("bytes-%d", v)))
+				default:
+					l.Body().SetEmptyMap().PutInt("m", int64(v))
+				}
+				l.SetSeverityText(fmt.Sprintf("sev-%d", v))
+				l.SetSeverityNumber(plog.SeverityNumber(v % 25))
+				l.SetTraceID(pcommon.TraceID{byte(v), byte(v >> 8), byte(v >> 16), 1})
+				l.SetSpanID(pcommon.SpanID{byte(v), byte(v >> 8), byte(v >> 16), 2})
+				l.SetTimestamp(pcommon.Timestamp(1_700_000_000_000_000_000 + uint64(v)))
+				l.Attributes().PutStr(fmt.Sprintf("k%d", v%300), fmt.Sprintf("v%d", v))
+				l.Attributes().PutInt("n", int64(v))
+			}
+			h.Batches = append(h.Batches, LB(ld))
+		default:
+			md := pmetric.NewMetrics()
+			rm := md.ResourceMetrics().AppendEmpty()
+			rm.Resource().Attributes().PutStr("host", fmt.Sprintf("h%d", k%3))
+			sm := rm.ScopeMetrics().AppendEmpty()
+			sm.Scope().SetName("lib")
+			for i := 0; i < n; i++ {
+				v := val()
+				m := sm.Metrics().AppendEmpty()
+				m.SetName(fmt.Sprintf("metric-%d", v))
+				m.SetDescription(fmt.Sprintf("desc-%d", v))
+				m.SetUnit(fmt.Sprintf("u%d", v))
+				switch i % 3 {
+				case 0:
+					dp := m.SetEmptyGauge().DataPoints().AppendEmpty()
+					dp.SetIntValue(int64(v))
+					dp.Attributes().PutStr(fmt.Sprintf("k%d", v%300), fmt.Sprintf("v%d", v))
+					ex := dp.Exemplars().AppendEmpty()
+					ex.SetTraceID(pcommon.TraceID{byte(v), byte(v >> 8), 3})
+					ex.SetSpanID(pcommon.SpanID{byte(v), byte(v >> 8), 4})
+					ex.FilteredAttributes().PutStr("x", fmt.Sprintf("x%d", v))
+				case 1:
+					s := m.SetEmptySum()
+					s.SetAggregationTemporality(pmetric.AggregationTemporality(1 + v%2))
+					dp := s.DataPoints().AppendEmpty()
+					dp.SetDoubleValue(float64(v))
+					dp.Attributes().PutInt("n", int64(v))
+				default:
+					dp := m.SetEmptyHistogram().DataPoints().AppendEmpty()
+					dp.SetCount(uint64(v))
+					dp.SetSum(float64(v))
+					dp.BucketCounts().FromRaw([]uint64{uint64(v), 1})
+					dp.ExplicitBounds().FromRaw([]float64{float64(v)})
+					dp.Attributes().PutStr("s", fmt.Sprintf("v%d", v))
+				}
+			}
+			h.Batches = append(h.Batches, MB(md))
+		}
+	}
+	return h
+}
